@@ -1404,6 +1404,7 @@ def execute(spec):
 
 class _Engine:
     name = "session"
+    isolate_runs = True
 
     @staticmethod
     def generate(prop, seed, idx, tier):
